@@ -5,18 +5,15 @@ from . import build, core, dtwcases as dc, dtwx, tlc
 from .dtwfamily import act_m, classify
 
 
-def run_records_family(ctx, cases, worker, kind, mc_cfgs=(), rule="", mc_module="MC_DTWCore", chunk=600,
-                       extra_fields=("routes",)):
-    ctx.rule = rule
-    ctx.log("building /repo working tree")
-    src = build.py_build()
-    act_m(ctx, list(mc_cfgs), module=mc_module)
-    ctx.log("running %d cases through the implementation" % len(cases))
-    outs = core.pool_map(src, "harness.dtwx", worker, cases)
+def judge_pass(ctx, src, cases, worker, kind, chunk=600, env=None, tag=""):
+    """Run the cases through one worker, have TLC judge the records, classify rejections."""
+    ctx.log("running %d cases through the implementation (%s)" % (len(cases), worker))
+    outs = core.pool_map(src, "harness.dtwx", worker, cases, env=env)
     by_id = {c["id"]: c for c in cases}
     records = []
+    nobs = 0
     for c, o in zip(cases, outs):
-        rec = {"id": c["id"], "kind": kind, "c": dtwx.tla_case(c)}
+        rec = {"id": c["id"], "kind": kind, "c": dtwx.tla_case(c), "prune": bool(c.get("prune"))}
         if o.get("crashed"):
             o = dict(CRASH[kind])
         for k, v in o.items():
@@ -24,17 +21,33 @@ def run_records_family(ctx, cases, worker, kind, mc_cfgs=(), rule="", mc_module=
                 rec[k] = v
         c["_rec"] = rec
         records.append(rec)
-        ctx.evaluations += len(rec.get("routes", []))
-    ctx.log("Act T: TLC judges %d records (%d observations)" % (len(records), ctx.evaluations))
+        nobs += len(rec.get("routes", []))
+    ctx.evaluations += nobs
+    ctx.log("Act T: TLC judges %d records (%d observations)" % (len(records), nobs))
     res = tlc.validate_traces("DTWTrace", "DTWTrace.cfg", records, chunk=chunk)
     ctx.add_tv(res)
+    if res.get("notes"):
+        ctx.extra["reference_deviates_from_spec"] = ctx.extra.get("reference_deviates_from_spec", 0) + len(res["notes"])
     classify(ctx, by_id, res["fails"])
-    ctx.nontrivial = {json.dumps(dtwx.tla_case(c), sort_keys=True) for c in cases if dc.is_nontrivial(c)}
-    ctx.samples = [c["_rec"] for c in cases[:: max(1, len(cases) // 4)]][:4]
+    if not isinstance(ctx.nontrivial, set):
+        ctx.nontrivial = set()
+    ctx.nontrivial |= {json.dumps(dtwx.tla_case(c), sort_keys=True) for c in cases if dc.is_nontrivial(c)}
+    ctx.samples += [c["_rec"] for c in cases[:: max(1, len(cases) // 3)]][:3]
+
+
+def run_records_family(ctx, cases, worker, kind, mc_cfgs=(), rule="", mc_module="MC_DTWCore", chunk=600,
+                       extra_fields=("routes",)):
+    ctx.rule = rule
+    ctx.log("building /repo working tree")
+    src = build.py_build()
+    act_m(ctx, list(mc_cfgs), module=mc_module)
+    judge_pass(ctx, src, cases, worker, kind, chunk=chunk)
     return core.finish(ctx)
 
 
 CRASH = {
     "wps": {"routes": ["PROCESS-CRASH"], "mat": [[]], "d": [-5], "neg": [False], "slices": []},
     "path": {"routes": ["PROCESS-CRASH"], "paths": [[]], "d": [-5]},
+    "dist": {"routes": ["PROCESS-CRASH"], "obs": [-5]},
+    "agree": {"routes": ["PROCESS-CRASH", "PROCESS-CRASH"], "obs": [-5, -6]},
 }
